@@ -47,7 +47,8 @@ Definition parse_config_tok (b : bytes) : option (Z * option Z) :=
   | _ => None
   end.
 
-Definition enc_trace (t : list ev) : list Z := map enc_ev t.
+(* the file-system part of the log (what strace can see); hashing is internal *)
+Definition enc_trace (t : list ev) : list Z := map enc_ev (filter (fun e => negb (is_hash e)) t).
 Definition enc_l {A} (with_trace : bool) (m : L A) : list Z :=
   enc_class (result m) ++ (if with_trace then enc_trace (trace m) else []).
 
@@ -61,7 +62,10 @@ Definition dir_case (which : Z) (with_trace : bool) (args : list (list Z)) : lis
   if which =? 0 then enc_l with_trace (private_prover_from_dir leaf_c leaf_v token_ok parse_config_tok d)
   else if which =? 1 then enc_l with_trace (public_prover_from_dir canon_pb (fun _ => token_ok) parse_config_tok d)
   else if which =? 2 then
-    enc_l with_trace (aggregator_new canon_pb canon_pub (reser_of fs) (reser_of fs) (cfgok_of fs)
+    (* the codec results the harness reports belong to the two public-batch files *)
+    let only := fun id => filter (fun f => fe_id f =? id) fs in
+    enc_l with_trace (aggregator_new canon_pb canon_pub (reser_of (only F_PUB_COMMON)) (reser_of (only F_PUB_VERIFIER))
+                                     (cfgok_of (only F_PUB_COMMON))
                                      (fun _ => token_ok) parse_config_tok d)
   else if which =? 3 then enc_l with_trace (gen_private_batch leaf_c leaf_v d (arg args 0 0))
   else enc_l with_trace (gen_public_batch canon_pb d (arg args 0 0) (arg args 0 1)).
